@@ -29,6 +29,7 @@ for _m in pkgutil.walk_packages(psd_tools.__path__, "psd_tools."):
         pass
 
 T0 = frozenset(D._TERMS)
+from enum import Enum as Enum_  # noqa
 
 
 def sha(b):
@@ -36,25 +37,44 @@ def sha(b):
 
 
 def module_globals_fingerprint():
-    """fingerprint of every module-level mutable container of psd_tools.* (dict / list / set)"""
+    """fingerprint of the process-wide state of psd_tools.*: every module-level value that is not a module, class or
+    function (containers AND scalars/flags), and every data attribute stored on a psd_tools class (class-level slots)"""
+    import inspect
+
     fp = {}
+
+    def rep(val):
+        try:
+            if isinstance(val, dict):
+                return repr(sorted((repr(k), repr(v)) for k, v in val.items()))
+            if isinstance(val, (set, frozenset)):
+                return repr(sorted(repr(x) for x in val))
+            return repr(val)
+        except Exception as e:  # noqa
+            return "unreprable:%r" % e
+
+    seen_cls = set()
     for name, mod in sorted(sys.modules.items()):
         if not (name == "psd_tools" or name.startswith("psd_tools.")) or mod is None:
             continue
         for attr, val in sorted(vars(mod).items()):
             if attr.startswith("__"):
                 continue
-            if isinstance(val, (dict, list, set, bytearray)):
-                try:
-                    if isinstance(val, dict):
-                        r = repr(sorted((repr(k), repr(v)) for k, v in val.items()))
-                    elif isinstance(val, set):
-                        r = repr(sorted(repr(x) for x in val))
-                    else:
-                        r = repr(val)
-                except Exception as e:  # noqa
-                    r = "unreprable:%r" % e
-                fp["%s.%s" % (name, attr)] = (len(val), sha(r.encode("utf8", "replace")))
+            if inspect.isclass(val):
+                if (val.__module__ or "").startswith("psd_tools") and val not in seen_cls and not issubclass(val, Enum_):
+                    seen_cls.add(val)
+                    for ca, cv in sorted(vars(val).items()):
+                        if ca.startswith("__") or callable(cv) or isinstance(cv, (property, classmethod, staticmethod)) \
+                                or inspect.isdatadescriptor(cv) or inspect.ismethoddescriptor(cv):
+                            continue
+                        fp["%s.%s.%s" % (val.__module__, val.__qualname__, ca)] = sha(rep(cv).encode("utf8", "replace"))
+                continue
+            if inspect.ismodule(val) or callable(val) or type(val).__module__.startswith(("logging", "typing", "re")):
+                continue
+            r = rep(val)
+            if " at 0x" in r:  # object identity in the repr: not a value
+                continue
+            fp["%s.%s" % (name, attr)] = sha(r.encode("utf8", "replace"))
     return fp
 
 
@@ -70,7 +90,7 @@ def gen_doc(k):
 
     for i in range(n):
         im = Image.new(mode, (2 + i, 2 + (k + i) % 2), color=tuple([(37 * (k + i + c)) % 256 for c in range(len(mode))]) if mode != "L" else (37 * (k + i)) % 256)
-        layer = PixelLayer.frompil(im, psd, "L%d_%d" % (k, i), top=i % 2, left=(k + i) % 3)
+        layer = PixelLayer.frompil(im, psd, "\u00c4rger%d_%d" % (k, i), top=i % 2, left=(k + i) % 3)
         psd.append(layer)
     if k % 2:
         g = Group.new("G%d" % k, open_folder=bool(k % 4 == 1), parent=psd)
@@ -124,18 +144,28 @@ def observe(item, with_composite):
             out["built_save"] = sha(raw)
         else:
             raw = open(item, "rb").read()
-        low = PSD.read(io.BytesIO(raw))
+        # the pascal-string encoding used for this document is a function of the document alone
+        enc = ["macroman", "maccyrillic", "macroman", "utf_8"][int(hashlib.sha1(item.encode()).hexdigest(), 16) % 4]
+        try:
+            PSD.read(io.BytesIO(raw), encoding=enc)
+        except UnicodeDecodeError:
+            enc = "macroman"
+        out["encoding"] = enc
+        low = PSD.read(io.BytesIO(raw), encoding=enc)
         b = io.BytesIO()
-        low.write(b)
+        low.write(b, encoding=enc)
         out["lowlevel_rewrite"] = sha(b.getvalue())
-        psd = PSDImage.open(io.BytesIO(raw))
+        psd = PSDImage.open(io.BytesIO(raw), encoding=enc)
         desc = []
         for layer in psd.descendants():
             desc.append((layer.kind, layer.name, layer.bbox, layer.visible, layer.opacity, str(layer.blend_mode), layer.clipping_layer))
         out["tree"] = sha(repr((psd.size, psd.color_mode, psd.bbox, desc)).encode("utf8", "replace"))
         b = io.BytesIO()
-        psd.save(b)
-        out["api_save"] = sha(b.getvalue())
+        try:
+            psd.save(b)  # default encoding of save(): what the document gets does not depend on other documents
+            out["api_save"] = sha(b.getvalue())
+        except UnicodeEncodeError:
+            out["api_save"] = "exc:UnicodeEncodeError"
         if psd.width * psd.height <= (256 * 256 if with_composite else 100 * 100) and psd.depth == 8:
             try:
                 im = psd.composite(force=True)
@@ -147,9 +177,9 @@ def observe(item, with_composite):
         D._TERMS.clear()
         D._TERMS.update(T0)
         try:
-            low2 = PSD.read(io.BytesIO(raw))
+            low2 = PSD.read(io.BytesIO(raw), encoding=enc)
             b2 = io.BytesIO()
-            low2.write(b2)
+            low2.write(b2, encoding=enc)
             out["lowlevel_rewrite_terms_reset"] = sha(b2.getvalue())
         finally:
             D._TERMS.clear()
